@@ -290,6 +290,14 @@ def asarray(x, xp: Any = None, dtype: Any | None = None, **kwargs) -> Array:
             tensor = tensor.to(resolve_dtype(dtype, xp=xp))
         return tensor
 
+    # torch cannot wrap a NumPy view with a negative stride (e.g. x[::-1])
+    if (
+        is_torch_namespace(xp)
+        and isinstance(x, np.ndarray)
+        and any(s < 0 for s in x.strides)
+    ):
+        x = np.ascontiguousarray(x)
+
     if dtype is not None:
         kwargs["dtype"] = resolve_dtype(dtype, xp=xp)
     return xp.asarray(x, **kwargs)
